@@ -208,6 +208,15 @@ func TestVerifRecC11(t *testing.T) {
 	}()} {
 		uniform(in)
 	}
+	rgroup := func(kind string, sa, sb []byte, P, o *RistrettoPoint) {
+		e := ev("rgroup")
+		e["kind"], e["a"], e["b"], e["P"] = kind, vb(sa), vb(sb), vpt(vev{}, &P.inner)
+		b, _ := o.MarshalBinary()
+		e["out"] = vb(b)
+		vpt(e, &o.inner)
+		e["sqrts"] = vcertEncode(&o.inner)
+		w.emit(e)
+	}
 	// ---- group operations through the Ristretto wrappers, result encoded (agree with the reference definition)
 	ng := 11
 	if n > 1000 {
@@ -286,13 +295,33 @@ func TestVerifRecC11(t *testing.T) {
 			t2.Neg(&t2)
 			o.Sub(&o, &t2)
 		}
-		e := ev("rgroup")
-		e["kind"], e["a"], e["b"], e["P"] = kind, vb(sa), vb(sb), vpt(vev{}, &P.inner)
-		b, _ := o.MarshalBinary()
-		e["out"] = vb(b)
-		vpt(e, &o.inner)
-		e["sqrts"] = vcertEncode(&o.inner)
-		w.emit(e)
+		rgroup(kind, sa, sb, P, &o)
+	}
+	// many terms (beyond the Straus/Pippenger threshold), static and dynamic halves with unrelated scalars:
+	// sum_i [a_i]P (precomputed) + sum_j [b_j]B (dynamic) = [sum a_i]P + [sum b_j]B
+	for _, sd := range [][2]int{{95, 96}, {3, 200}} {
+		P := rep(elem(), g.r.Intn(4), true)
+		xp := NewExpandedRistrettoPoint(P)
+		var ss, ds []*scalar.Scalar
+		var sp []*ExpandedRistrettoPoint
+		var dp []*RistrettoPoint
+		sumA, sumB := scalar.New(), scalar.New()
+		for i := 0; i < sd[0]; i++ {
+			s, _ := scalar.NewFromBytesModOrderWide(g.bytes(64))
+			ss, sp = append(ss, s), append(sp, xp)
+			sumA.Add(sumA, s)
+		}
+		for i := 0; i < sd[1]; i++ {
+			s, _ := scalar.NewFromBytesModOrderWide(g.bytes(64))
+			ds, dp = append(ds, s), append(dp, RISTRETTO_BASEPOINT_POINT)
+			sumB.Add(sumB, s)
+		}
+		var o RistrettoPoint
+		o.ExpandedMultiscalarMulVartime(ss, sp, ds, dp)
+		var sa, sb [32]byte
+		_ = sumA.ToBytes(sa[:])
+		_ = sumB.ToBytes(sb[:])
+		rgroup("xmsmbig", sa[:], sb[:], P, &o)
 	}
 	// ---- sampled
 	for i := 0; i < n; i++ {
